@@ -8,6 +8,7 @@ EXTENDS Ordering, Json, IOUtils
 CONSTANTS N,            \* number of elements
           NMethods,     \* how many of the last elements are serialized methods
           WithOverrides,\* BOOLEAN: also enumerate class-level order(...) on a base class and on the class
+          SeqForm,      \* BOOLEAN: include the sequence form order([...]) among the class-level choices
           Deviations
 VARIABLES elts, phase, res, ovs
 vars == <<elts, phase, res, ovs>>
@@ -17,8 +18,15 @@ Targets  == {NamePool[i] : i \in 1..N} \cup {"zz"}          \* "zz" is never an 
 Ords(n)  == IF WithOverrides THEN {ONone, OVal(1), OAfter(NamePool[1])} \ {OAfter(n)}
             ELSE {ONone} \cup {OVal(v) : v \in {-1, 0, 1, 999}}
                  \cup {OAfter(x) : x \in Targets \ {n}} \cup {OBefore(x) : x \in Targets \ {n}}
-\* a class-level mapping overrides at most one element here
-OvChoices == {<<>>} \cup {<< <<NamePool[i], o>> >> : i \in 1..N, o \in {OVal(-1), OVal(999), OAfter(NamePool[N]), OBefore(NamePool[1])}}
+\* a class-level mapping overrides at most one element here ...
+MapChoices == {<<>>} \cup {<< <<NamePool[i], o, "map">> >> : i \in 1..N, o \in {OVal(-1), OVal(999), OAfter(NamePool[N]), OBefore(NamePool[1])}}
+\* ... and the SEQUENCE form order([x0, x1, ...]) is the mapping {x1: after x0, x2: after x1, ...}
+\* (entries tagged "seq": the bridge writes them back as the list)
+SeqOv(s) == [i \in 1..(Len(s) - 1) |-> <<s[i + 1], OAfter(s[i]), "seq">>]
+SeqChoices == {SeqOv(<<NamePool[p[1]], NamePool[p[2]]>>) : p \in {q \in (1..N) \X (1..N) : q[1] # q[2]}}
+              \cup {SeqOv(<<NamePool[p[1]], NamePool[p[2]], NamePool[p[3]]>>) :
+                       p \in {q \in (1..N) \X (1..N) \X (1..N) : q[1] # q[2] /\ q[1] # q[3] /\ q[2] # q[3]}}
+OvChoices == MapChoices \cup (IF SeqForm THEN SeqChoices ELSE {})
 
 Init == /\ elts = <<>> /\ phase = "build" /\ res = <<>> /\ ovs = << <<>>, <<>> >>
 AddElt == /\ phase = "build" /\ Len(elts) < N
@@ -27,7 +35,7 @@ AddElt == /\ phase = "build" /\ Len(elts) < N
           /\ UNCHANGED <<phase, res, ovs>>
 \* ovs[1]: order(...) on the base class (declares the first elements), ovs[2]: on the class itself
 ChooseOv == /\ phase = "build" /\ Len(elts) = N /\ WithOverrides
-            /\ \E b \in OvChoices, c \in OvChoices :
+            /\ \E b \in MapChoices, c \in OvChoices :
                   /\ \A k \in DOMAIN b : b[k][2].x # b[k][1]
                   /\ \A k \in DOMAIN c : c[k][2].x # c[k][1]
                   /\ ovs' = <<b, c>>
